@@ -13,6 +13,7 @@ from rules.common import Ctx
 from rules import pinned
 P = Program()
 fns = set()
+props = {}
 for i in range(1, 21):
     pid = f"C{i:02d}"
     mod = importlib.import_module(f"rules.{pid.lower()}")
@@ -20,6 +21,8 @@ for i in range(1, 21):
     rep.program_stats = P.stats()
     mod.run(P, rep, "quick")
     fns |= {f for f in rep.analysed_functions if f in P.functions}
+    for f_ in rep.analysed_functions:
+        props.setdefault(f_, []).append(pid)
 ctx = Ctx(P)
 out = {}
 for q in sorted(fns):
@@ -28,7 +31,8 @@ for q in sorted(fns):
     except Exception as e:
         print("skip", q, type(e).__name__, e)
         continue
-    if s is not None and (s["total"] or s["refuses"] or s["guards"] or s["defaults"] or s["option_defaults"] or s["index_statements"]):
+    if s is not None and (s["total"] or s["refuses"] or s["guards"] or s["defaults"] or s["option_defaults"] or s["index_statements"] or s["answers"]):
+        s["props"] = props.get(q, [])
         out[q] = s
 (V / "mdsa" / "pinned_summaries.json").write_text(json.dumps(out, indent=1, sort_keys=True))
 print(len(out), "functions;", sum(1 for s in out.values() if s["total"]), "total,", sum(len(s["refuses"]) for s in out.values()), "refusal terms,", sum(len(s["guards"]) for s in out.values()), "guard calls,", sum(len(s["defaults"]) for s in out.values()), "defaults")
